@@ -331,6 +331,18 @@ pub unsafe extern "C" fn pipe2(fds: *mut c_int, flags: c_int) -> c_int {
 /// `fcntl` is variadic in C; on x86-64 the third argument arrives in the same register either way.
 #[no_mangle]
 pub unsafe extern "C" fn fcntl(fd: c_int, cmd: c_int, arg: c_long) -> c_int {
+    if active() && (cmd == libc::F_DUPFD_CLOEXEC || cmd == libc::F_DUPFD) {
+        // `File::try_clone`: a copy at or above `arg`
+        let name = if cmd == libc::F_DUPFD_CLOEXEC { "DUPFD_CLOEXEC" } else { "DUPFD" };
+        if let Some(e) = fault(Kind::Fcntl) {
+            set_errno(e);
+            log(format_args!("fcntl {} {} {} -> E{}", fd, name, arg, e));
+            return -1;
+        }
+        let r = libc::syscall(libc::SYS_fcntl, fd as c_long, cmd as c_long, arg) as c_int;
+        log(format_args!("fcntl {} {} {} -> {}", fd, name, arg, ResFmt(r as c_long)));
+        return r;
+    }
     if !active() || (cmd != libc::F_GETFD && cmd != libc::F_SETFD) {
         return libc::syscall(libc::SYS_fcntl, fd as c_long, cmd as c_long, arg) as c_int;
     }
